@@ -185,6 +185,9 @@ def classify_exception(exc: BaseException) -> str:
         if msg.startswith("[") or "Unexpected error parsing" in msg or "Parse error" in msg:
             return "rejected"
         return "crashed"
+    if isinstance(exc, ValueError) and str(exc).strip():
+        # the analyser reports some user errors (loop bounds) by raising ValueError with a message
+        return "rejected"
     return "crashed"
 
 
